@@ -110,6 +110,7 @@ class C20bPart:
             if s["shape"] == "other":
                 notes.append("UNCLASSIFIED hook site %s:%d in %s (%s): %s" % (s["file"], s["line"], s["func"], s["hook"],
                                                                            s.get("why", "")))
+        self._c20_notes = notes   # the evidence file keeps this list ("translator_notes"): later notes are appended to it
         return notes
 
     # ---- second evaluation -------------------------------------------------------------------------------------------
@@ -154,9 +155,14 @@ class C20bPart:
                                 len(mm), json.dumps([byid[i]["desc"] for i in mm[:2]], default=str)[:1800])))
         feats = (summ[0].get("extra", {}).get("features", {}) if summ else {})
         nt = sum(1 for r in rows if r.get("nontrivial"))
-        ctx.notes.append("C20 HLS driver: %d cases (%d with an admitted reader), spec failures %d, mismatches %d; "
-                         "operations: %s" % (len(rows), nt, len(res["spec_failures"]), len(res["mismatches"]),
-                                             json.dumps(dict(sorted(feats.items())))))
+        note = ("C20 HLS driver: %d cases (%d with an admitted reader), spec failures %d, mismatches %d; classes: %s; "
+                "operations: %s" % (len(rows), nt, len(res["spec_failures"]), len(res["mismatches"]),
+                                    json.dumps((summ[0].get("classes", {}) if summ else {}), sort_keys=True),
+                                    json.dumps(dict(sorted(feats.items())))))
+        ctx.notes.append(note)
+        print("[verif] " + note, flush=True)
+        if isinstance(getattr(self, "_c20_notes", None), list):
+            self._c20_notes.append(note)
         if nt * 2 < len(rows):
             out.append(dict(kind="driver", what="C20 HLS driver: only %d of %d cases admit a reader" % (nt, len(rows))))
         if rc == 0 and feats.get("sessions-held-together", 0) < 4:
